@@ -31,6 +31,8 @@ def run(facts, rep):
     d1_tickets(facts, rep)
     d2_push(facts, rep)
     d3_pop(facts, rep)
+    d3_page_sentinel(facts, rep)
+    d1_tickets_never_handed_back(facts, rep)
     d4_pages(facts, rep)
     d7_signed_sizes(facts, rep)
     # D5 bounded-queue wake-ups: the rules live in C02 (D4/D5); the predicate rule is repeated here because a blocked push/pop
@@ -40,7 +42,7 @@ def run(facts, rep):
 
 
 def witnesses(rep, tier):
-    witness.check_file(rep, 'D6', 'witness/queue.cpp', floor=4)
+    witness.check_file(rep, 'D6', 'witness/queue.cpp', extra_flags=['-fno-access-control'], floor=5)
 
 
 def ops_on(fn, member, kinds=None):
@@ -207,6 +209,102 @@ def d3_pop(facts, rep):
         ok3 = bool(st) and bool(hp) and all(not fn.can_reach(sp, pp) for sp, _ in st for pp, _ in hp)
         rep.ob('D3', 'K4', fn, 'head_counter is advanced after the page was unlinked', ok3, 'the next popper can see the stale head page')
     rep.floor('D3', 8, 'pop finalisation')
+
+
+def d1_tickets_never_handed_back(facts, rep):
+    """Tickets order the operations of the queue: a claimed head ticket names one entry for ever.  An operation that gives up
+    (abort) cannot hand its ticket back by decrementing the counter - other tickets may have been taken after it, and the
+    decrement then re-issues a ticket that is in use and orphans its own: the next item lands under a ticket nobody will ever
+    pop and the holder of the duplicated ticket sleeps for ever.  Rule: head_counter and tail_counter of the queue representation
+    only ever grow - no decrement (--, fetch_sub, -=) of either in the queue classes or in their exception handlers."""
+    n = 0
+    ordinal = {}
+    for fn in sorted(facts.fns.values(), key=lambda f: (f.file, f.l0, f.u)):
+        cls = fn.cls or ''
+        par = facts.fns.get(fn.d.get('lparent')) if fn.kind == 'lambda' else None
+        owner = (par.cls if par is not None else cls) or ''
+        if not (owner.startswith(D2 + 'concurrent_bounded_queue') or owner.startswith(D2 + 'concurrent_queue') or owner.startswith(D2 + 'micro_queue')):
+            continue
+        for pos, o in atomic_ops(fn):
+            if o['kind'] != 'rmw' or last_member(fn, o['obj']) not in ('head_counter', 'tail_counter'):
+                continue
+            n += 1
+            dec = o['name'] in ('operator--', 'fetch_sub', 'operator-=')
+            anchor = par if par is not None else fn
+            ordinal[anchor.u] = ordinal.get(anchor.u, 0) + 1
+            where = 'exception handler of ' if par is not None else ''
+            rep.ob('D1', 'K1', anchor, 'a claimed %s ticket is never handed back by decrementing the counter (%s%s, RMW #%d)'
+                   % (last_member(fn, o['obj']).split('_')[0], where, anchor.p.split('::')[-1], ordinal[anchor.u]),
+                   not dec, 'an aborted operation decrements the counter although later tickets may already have been taken: the ticket it '
+                   'returns is in use and its own is orphaned - the next pushed item is never popped and the holder of the duplicated ticket '
+                   'sleeps for ever', ln=o['ln'], key_extra='monotone|%s|%d' % (anchor.p, ordinal[anchor.u]))
+    if n < 3:
+        raise AnalysisBroken('ticket counter RMWs not found (%d)' % n)
+
+
+def d3_page_sentinel(facts, rep):
+    """After a failed page allocation the lane's page list ends in a sentinel that is not a page (invalidate_page links the address
+    1; tail_counter becomes odd so that later pushes throw).  head_page / tail_page / next can therefore hold null or the
+    sentinel, and every consumer of such a pointer asks is_valid_page() before it dereferences it.  Rule (sibling agreement,
+    all lanes' methods and the pop finalizer): a local page pointer whose value comes from head_page / tail_page (load or
+    get_head_page()) is dereferenced only on an edge where is_valid_page(that pointer) was seen true.  Recorded exceptions
+    (read and confirmed): none so far - the push path re-reads tail_page only after it has passed the odd-tail_counter test,
+    which is expressed as its own exemption below."""
+    EXEMPT = {
+        MQ + 'prepare_page': 'the push reaches this load only after it passed the `tail_counter & 1` test (no failed allocation on this lane) '
+                             'and waited for its turn; a push on a lane with a sentinel throws bad_last_alloc before',
+    }
+    n = 0
+    for fn in facts.fns.values():
+        cls = fn.cls or ''
+        if not (cls.startswith(D2 + 'micro_queue') or cls.startswith(D2 + 'micro_queue_pop_finalizer')):
+            continue
+        defs = Defs(fn)
+        pagevars = set()
+        for (vid, dn), val in defs.value_of.items():
+            if val is None:
+                continue
+            for x in fn.subtree(val):
+                op = atomic_op(fn, x)
+                if op and op['kind'] == 'load' and last_member(fn, op['obj']) in ('head_page', 'tail_page'):
+                    pagevars.add(vid)
+                if fn.nodes[x].get('k') == 'call' and (fn.callee(x) or {}).get('n') == 'get_head_page':
+                    pagevars.add(vid)
+        if not pagevars:
+            continue
+        for b, i, e in fn.iter_elems():
+            if not isinstance(e, int):
+                continue
+            nd = fn.nodes[e]
+            base = None
+            if nd.get('k') == 'member' and nd.get('arrow') and 'base' in nd:
+                base = nd['base']
+            elif nd.get('k') == 'unop' and nd.get('op') == '*':
+                base = nd['sub']
+            if base is None:
+                continue
+            bn = fn.n(fn.strip(base))
+            if bn.get('k') != 'var' or bn.get('v') not in pagevars:
+                continue
+            vid = bn['v']
+
+            def valid(a, truth, vid=vid):
+                a = resolve_cond_source(fn, defs, a)          # `bool ok = is_valid_page(p); if (ok && ...)`
+                an = fn.n(fn.strip(a))
+                if an.get('k') == 'call' and (fn.callee(fn.strip(a)) or {}).get('n') == 'is_valid_page' and an.get('a'):
+                    x = fn.n(fn.strip(an['a'][0]))
+                    return truth and x.get('k') == 'var' and x.get('v') == vid
+                return False
+            ok, wit = dominated_by_edges(fn, (b, i), edges_where(fn, valid))
+            if fn.p in EXEMPT:
+                rep.note('D3 page sentinel exempt %s line %s: %s' % (fn.p, nd.get('ln'), EXEMPT[fn.p]))
+                continue
+            n += 1
+            rep.ob('D3', 'K13', fn, 'page pointer `%s` is dereferenced only after is_valid_page() (line %s)' % (bn.get('n'), nd.get('ln')), ok,
+                   'the pointer can be the invalid-page sentinel (or null) left by a failed page allocation: dereferencing it crashes the '
+                   'consumer that drains the queue after a bad_alloc (' + wit + ')', ln=nd.get('ln'), key_extra='sentinel|%s|%s' % (fn.p, nd.get('ln')))
+    if n < 3:
+        raise AnalysisBroken('fewer page-pointer dereferences found than confirmed by reading (%d)' % n)
 
 
 def d4_pages(facts, rep):
